@@ -110,4 +110,67 @@ theorem get?_live (s : Slice α) (i : Int64) (k : Nat) (hi : i.toInt = k) (hk : 
 theorem live_of (s : Slice α) (arr : List α) (k : Nat) (ha : s.arr = arr) (hl : s.len = k) : s.live = arr.take k := by
   simp [Slice.live, ha, hl]
 
+/-! ### consecutive constant-index writes (the encoders) -/
+
+/-- `s[k] = v0; s[k+1] = v1; …` as the generated encoders do it -/
+def writeSeq (s : Slice α) : Nat → List α → Option (Slice α)
+  | _, [] => some s
+  | k, v :: vs => (s.setK? k v).bind fun s' => writeSeq s' (k + 1) vs
+
+theorem set_take_succ (l : List α) (k : Nat) (v : α) (h : k < l.length) : (l.set k v).take (k + 1) = l.take k ++ [v] := by
+  rw [List.take_add_one, List.take_set_of_le (Nat.le_refl k)]
+  simp [h]
+
+theorem set_drop_gt (l : List α) (k n : Nat) (v : α) (h : k < n) : (l.set k v).drop n = l.drop n := by
+  apply List.ext_getElem?
+  intro i
+  simp only [List.getElem?_drop, List.getElem?_set]
+  split
+  · omega
+  · rfl
+
+theorem writeSeq_some : ∀ (vals : List α) (s : Slice α) (k : Nat), k + vals.length ≤ s.len →
+    ∃ s', writeSeq s k vals = some s' ∧ s'.len = s.len ∧
+      s'.arr = s.arr.take k ++ vals ++ s.arr.drop (k + vals.length)
+  | [], s, k, _ => ⟨s, rfl, rfl, by simp⟩
+  | v :: vs, s, k, h => by
+    have hok := s.ok
+    simp only [List.length_cons] at h
+    have hk : k < s.len := by omega
+    have hset : s.setK? k v = some ⟨s.arr.set k v, s.len, by simpa using s.ok⟩ := by
+      unfold Slice.setK?; rw [if_pos hk]
+    obtain ⟨s', h1, h2, h3⟩ := writeSeq_some vs ⟨s.arr.set k v, s.len, by simpa using s.ok⟩ (k + 1) (by simp only; omega)
+    refine ⟨s', by simp only [writeSeq, hset, Option.bind_some, h1], h2, ?_⟩
+    rw [h3]
+    simp only
+    rw [set_take_succ _ _ _ (by omega), set_drop_gt _ _ _ _ (by omega)]
+    simp only [List.append_assoc, List.singleton_append, List.length_cons]
+    congr 3
+    omega
+
+/-- the same on a plain list (`[]byte` parameters) -/
+def writeSeqL (l : List α) : Nat → List α → Option (List α)
+  | _, [] => some l
+  | k, v :: vs => (Go.setK? l k v).bind fun l' => writeSeqL l' (k + 1) vs
+
+theorem writeSeqL_some : ∀ (vals : List α) (l : List α) (k : Nat), k + vals.length ≤ l.length →
+    writeSeqL l k vals = some (l.take k ++ vals ++ l.drop (k + vals.length))
+  | [], l, k, _ => by simp [writeSeqL]
+  | v :: vs, l, k, h => by
+    simp only [List.length_cons] at h
+    have hk : k < l.length := by omega
+    have hset : Go.setK? l k v = some (l.set k v) := by unfold Go.setK?; rw [if_pos hk]
+    simp only [writeSeqL, hset, Option.bind_some]
+    rw [writeSeqL_some vs (l.set k v) (k + 1) (by simp; omega)]
+    rw [set_take_succ _ _ _ hk, set_drop_gt _ _ _ _ (by omega)]
+    simp only [List.append_assoc, List.singleton_append, List.length_cons]
+    congr 4
+    omega
+
+theorem writeSeqL_short (vals : List α) (l : List α) (k : Nat) (v : α) (h : l.length ≤ k) :
+    writeSeqL l k (v :: vals) = none := by
+  simp only [writeSeqL, Go.setK?]
+  rw [if_neg (by omega)]
+  rfl
+
 end ScionTime.GoSlice
